@@ -39,6 +39,24 @@ def handle (toks : List String) (impl : String) : Verdict :=
     | some b =>
       { model := some (Driver.CertShow.cmsLine ty b),
         oracle := if impl = "panic" then some "SignedObject / Roa / Aspa / Manifest ::decode or an accessor panicked" else none }
+  | ["crld", h] =>
+    match (parseHex h).map (·.map UInt8.toNat) with
+    | none => badOp "hex"
+    | some b =>
+      { model := some (Driver.CertShow.crlLine b),
+        oracle := if impl = "panic" then some "Crl::decode or an accessor of the decoded CRL panicked" else none }
+  | ["idcd", h] =>
+    match (parseHex h).map (·.map UInt8.toNat) with
+    | none => badOp "hex"
+    | some b =>
+      { model := some (Driver.CertShow.idcLine b),
+        oracle := if impl = "panic" then some "IdCert::decode or an accessor panicked" else none }
+  | ["smsgd", h] =>
+    match (parseHex h).map (·.map UInt8.toNat) with
+    | none => badOp "hex"
+    | some b =>
+      { model := some (Driver.CertShow.smsgLine b),
+        oracle := if impl = "panic" then some "SignedMessage::decode or an accessor panicked" else none }
   | _ => badOp "unknown op"
 
 end Driver.C04
